@@ -269,10 +269,15 @@ TIE_TEXT = {
               "_update_param, get_parameter, the prefix/axes constants and the text of VALUE_PATTERN) is translated (tools/gen_report.py -> "
               "Gen/ReportSrc.lean); Props/ReportTie.lean (10 theorems): the report model equals the translated methods, which never raise; "
               "validated against a real writer through driver mode reportsrc.",
-    "xform": " Translator tie: Transform and CoordinateTransformer (gscrib/geometry/transform.py, transformer.py: 22 methods) are translated "
+    "xform": " Translator tie: Transform and CoordinateTransformer (gscrib/geometry/transform.py, transformer.py: 22 methods) and the context managers current_transform() / named_transform() of gscrib/gcode_core.py (as enter / exit pairs) are translated "
              "(tools/gen_xform.py -> Gen/XformSrc.lean) under an ownership discipline that makes a missing deepcopy a refusal; "
-             "Props/XformTie.lean (25 theorems): pivot conjugation and multiplication order, inverse recomputed on every change, stack / named "
+             "Props/XformTie.lean (28 theorems): pivot conjugation and multiplication order, inverse recomputed on every change, stack / named "
              "states / context-manager frames equal the model's, a rejected call leaves the object unchanged; validated through driver mode xform.",
+    "recv": " Translator tie (reception): printcore._readline whole (both except branches, handler loop, callbacks, log), Device.has_flow_control and "
+            "Device.is_connected (gscrib/printrun/printcore.py, device.py) are translated (tools/gen_recv.py -> Gen/RecvSrc.lean); Props/RecvTie.lean "
+            "(8 theorems): every line longer than one character that is read is logged, handed to every handler in registration order and to recvcb "
+            "exactly once whether the link is online or not, nothing else is delivered, has_flow_control depends on the device type alone (a serial "
+            "port is never flow-controlled whatever dtr: the value the sender tie assumes); validated through driver mode recvsrc.",
     "writers": " Translator tie: the writer list of GCodeCore (add_writer, remove_writer, write, flush, teardown, __exit__) and FileWriter "
                "(gscrib/writers/file_writer.py) are translated (tools/gen_writers.py -> Gen/WritersSrc.lean); Props/WritersTie.lean (15 theorems "
                "incl. WritersTie_run for every history): the writers model equals the translated source; validated through driver mode writerssrc.",
